@@ -95,7 +95,7 @@ Section Step.
     nth_error (e_tr env) (ri - 1) = Some bond -> e_rsym env (fst bond) (snd bond) = Ok sym ->
     mk_get ri marks = None ->
     let m := get_ring_marker (map snd marks) in
-    ring_step env (marks, out, trc) ri = Ok (marks ++ [(ri, m)], out ++ sym ++ marker_text m, trc ++ [m])
+    ring_step env (marks, out, trc) ri = Ok (marks ++ [(ri, m)], out ++ sym ++ marker_text (after_pct trc) m, trc ++ [m])
     /\ ~ In m (map snd marks) /\ 1 <= m.
   Proof.
     intros Hb Hs Hg. cbv zeta. unfold ring_step. rewrite Hb. cbn [of_option bind]. rewrite Hs. cbn [bind]. rewrite Hg.
@@ -105,7 +105,7 @@ Section Step.
   Lemma ring_step_close marks out trc ri bond sym m :
     nth_error (e_tr env) (ri - 1) = Some bond -> e_rsym env (fst bond) (snd bond) = Ok sym ->
     mk_get ri marks = Some m ->
-    ring_step env (marks, out, trc) ri = Ok (mk_del ri marks, out ++ marker_text m, trc ++ [m]).
+    ring_step env (marks, out, trc) ri = Ok (mk_del ri marks, out ++ marker_text (after_pct trc) m, trc ++ [m]).
   Proof. intros Hb Hs Hg. unfold ring_step. rewrite Hb. cbn [of_option bind]. rewrite Hs. cbn [bind]. now rewrite Hg. Qed.
 
   (** the contract is an invariant *)
@@ -161,10 +161,16 @@ Section Step.
 End Step.
 
 (** ------------------------------------------------------------------ 3. marker texts *)
-Lemma marker_text_digit m : m < 10 -> marker_text m = [digit_char m].
+Lemma marker_text_digit m : m < 10 -> marker_text false m = [digit_char m].
 Proof.
-  intros H. unfold marker_text. destruct (Nat.ltb_spec m 10); [|lia].
+  intros H. unfold marker_text. destruct (Nat.ltb_spec m 10); [|lia]. cbn [negb andb].
   do 10 (destruct m as [|m]; [reflexivity|]). lia.
 Qed.
-Lemma marker_text_pct m : 10 <= m -> marker_text m = "%"%char :: str_of_nat m.
-Proof. intros H. unfold marker_text. destruct (Nat.ltb_spec m 10); [lia|reflexivity]. Qed.
+Lemma marker_text_pct a m : 10 <= m -> marker_text a m = "%"%char :: str_of_nat m.
+Proof. intros H. unfold marker_text, pct_text. destruct (Nat.ltb_spec m 10); [lia|reflexivity]. Qed.
+(** after a marker written in the % form a one-digit marker is written with a leading zero (fix b681517) *)
+Lemma marker_text_after m : m < 10 -> marker_text true m = "%"%char :: "0"%char :: [digit_char m].
+Proof.
+  intros H. unfold marker_text, pct_text. rewrite andb_false_r. destruct (Nat.ltb_spec m 10); [|lia].
+  do 10 (destruct m as [|m]; [reflexivity|]). lia.
+Qed.
